@@ -780,6 +780,13 @@ static void probe_image (const Seed *s, const unsigned char *img, sf_count_t len
 
 static void c16_mutant (const Seed *s, const Mut *m, int routes_mask, int pairs)
 {	static unsigned char *work ; static sf_count_t work_cap ; char desc [200] ; int described = 0 ; sf_count_t len = -1 ;
+	/* replaying one spec: do not format the millions of specs of the other seeds and families */
+	if (vl_replaying ())
+	{	static const Seed *last ; static int seed_matches ; char tag [96] ;
+		if (last != s) { snprintf (tag, sizeof (tag), "seed=%s fam=", s->name) ; seed_matches = strstr (vl_opts.replay, tag) != NULL ; last = s ; }
+		if (! seed_matches) return ;
+		snprintf (tag, sizeof (tag), " fam=%s ", hc_family (m)) ; if (! strstr (vl_opts.replay, tag)) return ;
+		}
 	/* executions: read mode on virtual I/O for every mutant; read mode on a real path where C03 also uses descriptors; read/write mode for truncations and chunk edits */
 	int plan_n = 0, plan_mode [3], plan_route [3] ;
 	(void) pairs ;
